@@ -9,7 +9,7 @@
    reproduces byte for byte. *)
 From Coq Require Import String NArith List Bool.
 From RC Require Import lib.Result model.Layout model.TrigTable model.RichCodec model.Str model.StrEditor model.Alloc
-  proofs.C04_proofs proofs.C04_readback proofs.C08_proofs proofs.C09_proofs proofs.Save_strings proofs.Save_refs gen.GenTrig spec.SpecTrig gen.GenFlags gen.GenConsts.
+  proofs.C04_proofs proofs.C04_readback proofs.C04_locations proofs.C07_slots model.RichIo proofs.C08_proofs proofs.C09_proofs proofs.Save_strings proofs.Save_refs gen.GenTrig spec.SpecTrig gen.GenFlags gen.GenConsts.
 Import ListNotations.
 Local Open Scope N_scope.
 
@@ -121,3 +121,21 @@ Theorem C04_plain_actions_read_back_identically :
         (exists d, wav_duration cx args = Ok d /\ arg_get rarg a args' = Ok (AInt d)).
 Proof. exact authored_plain_action_reads_back_identically. Qed.
 Print Assumptions C04_plain_actions_read_back_identically.
+
+(* "every new reference resolving to the authored object", locations, through the save's own rebuild: the number the save hands
+   to the trigger encoders for a location l names a slot of the REBUILT table holding a location that Python considers equal to
+   l and that carries exactly that number - for the table's own locations and for authored ones placed by the allocator *)
+Theorem C04_the_number_written_for_a_location_names_that_location :
+  forall r ls mr l i,
+    filter (named "MRGN") r = [RMrgn ls] -> rebuild_mrgn r = Ok mr ->
+    NoDup (map fst (by_idx ls)) ->
+    find_loc_id l (snd mr) None = Some i ->
+    exists k0, rloc_eqb l k0 = true /\ assocN_last i (by_idx (fst mr)) = Some (set_idx k0 i).
+Proof. exact saved_location_number_names_the_location. Qed.
+Print Assumptions C04_the_number_written_for_a_location_names_that_location.
+
+(* ... whose premise every decoded location table meets *)
+Theorem C04_a_loaded_location_table_has_one_location_per_number :
+  forall L v ls, mrgn_decode L v = Ok ls -> NoDup (map fst (by_idx ls)).
+Proof. exact loaded_location_table_has_one_location_per_number. Qed.
+Print Assumptions C04_a_loaded_location_table_has_one_location_per_number.
